@@ -559,7 +559,7 @@ pub static PROP: crate::histcheck::HistProp = crate::histcheck::HistProp {
     id: "C15",
     scenario,
     judge,
-    rule: "One case = one seeded call history (10-60 operations: parse, compile [once or twice from one tree], render, io_map, unrelated compilations, clock shifts incl. backward steps and 2^33 s jumps, per-read clock scripts inside compile calls, caller-thread switches, hash-key epoch changes on fresh OS threads, logger level flips) over 1-4 generated expressions, executed against the real parse/compile/scheme/io_map in a fresh child process per block. Non-trivial = the history holds at least two successful compiles of one expression that has >= 2 hashed resources (distinct name/path patterns, printers) or >= 1 time test, and between them the clock window or the hash-key epoch/thread differs. distinct_nontrivial counts distinct shapes (hash of the operation-kind sequence with subjects, thread ids, shift signs and script activity) among the non-trivial histories.",
+    rule: "One case = one seeded call history (10-60 operations, one in a hundred 150-600, in the thorough tier rare marathons of 20000-70000 compiles: parse, compile [once or twice from one tree], render, io_map, unrelated compilations that may fail part-way, clock shifts incl. backward steps and 2^33 s jumps, per-read clock scripts inside compile calls, caller-thread switches, hash-key epoch changes on fresh OS threads, logger level flips, environment changes [variables, simulated file system, working directory, CPU set]) over 1-4 generated expressions (well-formed ones from the whole vocabulary with boundary numbers and layout variants; ill-formed ones: GNU spellings the parser rejects, compile-refused constructs mid-expression), executed against the real parse/compile/scheme/io_map in a fresh child process per block; a sample of the histories is executed again in six further fresh processes with the same and with different hash seeds. Non-trivial = the history holds at least two successful compiles of one expression that has >= 2 hashed resources (distinct name/path patterns, printers) or >= 1 time test, and between them the clock window or the hash-key epoch/thread differs. distinct_nontrivial counts distinct shapes (hash of the operation-kind sequence with subjects, thread ids, shift signs and script activity) among the non-trivial histories.",
     assumptions: &[
         "std reaches the wall clock only through libc clock_gettime and hash keys only through libc getrandom (both interposed by the harness binary; verified live at the start of every check)",
         "a digit run >= 10^9 in a program is either a number written in the expression (alone or times a size unit) or clock-derived; the simulated clock stays within [10^9 + 7, 2^40 - 12345] so that its clamped values are not round constants",
